@@ -177,3 +177,15 @@ Theorem C08_source_effects2 :
   (forall q r k refs a b i, peq (src_store_response q r k refs a b i) (store_response q r k refs a b i)).
 Proof. exact tie_store_response. Qed.
 Print Assumptions C08_source_effects2.
+
+(* the three header-set helpers — which fields are hop-by-hop for a message (the fixed list and what its Connection field lines
+   name), their removal, and the merge of a 304's fields into the stored ones (all but Content-Length and the 304's hop-by-hop
+   fields) — are those of internal/helpers.go on this run (Generated/SrcHeaderSets.v) *)
+From HC.Generated Require Import SrcHeaderSets.
+From HC.Proofs Require Import TieHeaderSets.
+Theorem C08_source_header_sets :
+  (forall h, src_hop_by_hop_headers h = hop_by_hop_headers h) /\
+  (forall h, src_remove_hop_by_hop h = remove_hop_by_hop h) /\
+  (forall stored fresh, src_update_stored_headers stored fresh = update_stored_headers stored fresh).
+Proof. split; [exact tie_hop_by_hop_headers|split; [exact tie_remove_hop_by_hop|exact tie_update_stored_headers]]. Qed.
+Print Assumptions C08_source_header_sets.
